@@ -361,6 +361,9 @@ class H2Protocol:
                     await self._flush()
                 await self.send(Updated(idle=idle))
             elif isinstance(event, Request):
+                _validate_h2_headers(
+                    [(name, value) for name, value in event.headers if name[:1] != b":"]
+                )
                 await self._create_server_push(event.stream_id, event.raw_path, event.headers)
         except (
             BufferCompleteError,
